@@ -212,6 +212,21 @@ def run(res, tier, build_ok):
         res.count("layouts with blobs" if any(len(v) == 3 for v in lay.values()) else "layouts bits only")
         out = {}
         cv.decode_bits(b1, lay, out)
+        # the table is a dictionary: the order of its entries is not part of the layout (a wide field listed before a
+        # narrow one that starts in the same byte, or after it, decodes the same)
+        for perm in (order1, order2, keys[::-1]):
+            outp = {}
+            try:
+                cv.decode_bits(b1, {k: lay[k] for k in perm}, outp)
+            except Exception as e:      # noqa
+                outp = {"raises": type(e).__name__}
+            res.count("decode with permuted table order")
+            if outp != out:
+                res.violation("decode_table_order", "decode_bits result depends on the order of the entries in the layout table",
+                              {"layout": {k: list(v) for k, v in lay.items()}, "order": perm, "buffer": bytes(b1).hex(),
+                               "decoded_in_table_order": {k: (v if isinstance(v, int) else bytes(v).hex()) for k, v in out.items()},
+                               "decoded_in_this_order": {k: (v if isinstance(v, int) else (bytes(v).hex() if not isinstance(v, str) else v)) for k, v in outp.items()}})
+                break
         if bytes(b1) != bytes(b2):
             res.violation("order_independent", "encode_dict result depends on the order fields are supplied",
                           {"layout": lay, "order1": order1, "order2": order2, "b1": bytes(b1).hex(), "b2": bytes(b2).hex()})
